@@ -59,6 +59,11 @@ claim('C08', 'effect-site gates on the selection loop + finite decision table by
       'every statement handed out is a clone and each clone shares no slice/map/pointer with the document, recursively through struct-valued fields; selection errors surface as ErrorNoApplicableTrustPolicy at the three call sites. '
       'Uniqueness of scopes (needed for order independence) is C09.', 'DESIGN.md 2/C08')
 
+claim('C09', 'rule-slot inventory of fail-closed gates (per-exit and per-iteration edge cuts) + sibling agreement + certified sanitizer by regexp/syntax walk + abstract interpretation of the global-statement loop',
+      'Static, all-paths: for each of ~60 structural rules of a policy document a fail-closed gate exists in the validation call tree (document, statement core, level/override, store entry, identity incl. overlap over every ordered pair, DN, scope incl. counting every scope, scope format); '
+      'gates in loops hold for every completed iteration and loops cannot be bypassed; the two document validators agree; no reflect.DeepEqual compares different static types; the global-statement rules equal their decision table; verifiers are only built by the constructor, '
+      'which validates every non-nil document; the file-name validator accepts no separator, NUL, empty or dot-only name. Decides the "only if" direction (every listed rule is enforced); completeness of the list against the specification is not decided.', 'DESIGN.md 2/C09')
+
 NA_REASON = {}
 
 def main():
